@@ -231,8 +231,9 @@ CondPhase(t, fr, ph, L, next) ==
     [] fr.sub = "err" ->
          LET c == fr.c IN
          (CASE CON(c).err \in {"default", "class"} ->
-                IF CON(c).lam
-                  THEN \* the message generator re-evaluates a lambda condition once
+                IF CON(c).lam /\ ~(ph = "post" /\ fr.res = 0)
+                  THEN \* the message generator re-evaluates a lambda condition once (unless a name it uses is
+                       \* bound to None, the re-evaluator's "unknown" marker: then the call is left out)
                        /\ PushOn(t, [fr EXCEPT !.sub = "reeval"], UsrFrame("cond", c, OOfPh(fr, ph), AOf(fr, ph), RoleOf(ph), nx + 1, fr.f))
                        /\ reg' = [reg EXCEPT ![t] = NoOut]
                        /\ nx' = nx + 1
